@@ -8,7 +8,7 @@ Open Scope N_scope.
 (* lock step: same history, fault still ahead (or due now) *)
 Definition sim (i : N) (wf w0 : wtr) : Prop :=
   wt_failed wf = false /\ wt_peer wf = wt_peer w0 /\ wt_calls wf = wt_calls w0 /\ wt_calls wf <= i /\
-  wt_failat wf = Some i /\ N.of_nat (length (wt_peer wf)) = wt_calls wf /\ intact w0.
+  wt_failat wf = Some i /\ N.of_nat (length (wt_peer wf)) = wt_calls wf /\ (intact w0 /\ wt_sticky wf = true /\ wt_sticky w0 = true).
 (* the fault has hit: the faulty transport is broken, the fault-free run is past call i *)
 (* ... and the peer holds the first i writes of the fault-free run and the accepted part of write i *)
 Definition hit_peer (i : N) (wf w0 : wtr) : Prop :=
@@ -22,7 +22,7 @@ Lemma wt_write_sim i p wf w0 : sim i wf w0 ->
   let '(m0, e0, w0') := wt_write p w0 in
   (sim i wf' w0' /\ mf = m0 /\ ef = e0 /\ ef = None /\ mf = lenN p) \/ broken i wf' w0'.
 Proof.
-  unfold sim, broken, intact. intros (Hf & Hp & Hc & Hle & Ha & Hlen & Ha0 & Hf0). unfold wt_write. rewrite Hf, Hf0, Ha, Ha0.
+  unfold sim, broken, intact. intros (Hf & Hp & Hc & Hle & Ha & Hlen & (Ha0 & Hf0) & Hst & Hst0). unfold wt_write. rewrite Hf, Hf0, Ha, Ha0, Hst, Hst0.
   destruct (N.eqb_spec i (wt_calls wf)) as [E|E].
   - rewrite split_at_spec. cbn beta iota zeta. right. cbn [wt_failed wt_calls wt_failat]. split; [reflexivity|].
     split; [lia|]. split; [|split; reflexivity].
@@ -284,7 +284,7 @@ Qed.
 Lemma simb_clean i bf b0 : simb i bf b0 -> clean bf -> bw_buf bf = [] -> clean b0 /\ bw_buf b0 = [].
 Proof.
   intros (Hr & Hn & He & Hs) (C1 & C2 & C3) Hb. split.
-  - split; [congruence|]. split; [congruence|]. apply Hs.
+  - split; [congruence|]. split; [congruence|]. split; apply Hs.
   - unfold bw_buf in *. now rewrite <- Hr.
 Qed.
 
@@ -318,7 +318,7 @@ Proof.
       * destruct (N.leb_spec (wt_calls (bw_under b01)) i) as [H|_]; [destruct Hbr as (_ & L & _); lia|].
         split; [reflexivity|].
         apply (broken_step i _ _ _ Hbr). apply ops_fwd. apply Hbr.
-      * destruct Sf as (_ & (_ & _ & Hnf) & _). destruct Hbr as (Hf & _). congruence.
+      * destruct Sf as (_ & (_ & _ & Hnf & _) & _). destruct Hbr as (Hf & _). congruence.
 Qed.
 
 (* ---------- the handshake writes on the raw transport ---------- *)
@@ -328,7 +328,8 @@ Lemma copy_bytes_sim i p wf w0 : sim i wf w0 ->
   e0 = None /\ ((sim i wf' w0' /\ ef = None) \/ (broken i wf' w0' /\ ef <> None)).
 Proof.
   intros Hs. pose proof (sim_intact _ _ _ Hs) as Hi0.
-  pose proof (copy_bytes_cases p wf (proj1 Hs)) as Cf. pose proof (copy_bytes_cases p w0 (proj2 Hi0)) as C0.
+  assert (Hstf : wt_sticky wf = true) by apply Hs. assert (Hst0 : wt_sticky w0 = true) by apply Hs.
+  pose proof (copy_bytes_cases p wf (proj1 Hs) Hstf) as Cf. pose proof (copy_bytes_cases p w0 (proj2 Hi0) Hst0) as C0.
   pose proof (copy_bytes_intact p w0 Hi0) as I0.
   unfold copy_bytes in *. destruct p as [|x p].
   - split; [reflexivity|]. left. auto.
@@ -375,6 +376,12 @@ Proof.
   rewrite wt_write_failed by exact H. reflexivity.
 Qed.
 
+Lemma copy_bytes_intact_none p w : intact w -> fst (copy_bytes p w) = None.
+Proof.
+  intros H. unfold copy_bytes. destruct p as [|x p]; [reflexivity|].
+  destruct (wt_write_intact (x :: p) w H) as (w' & -> & _). now rewrite N.eqb_refl.
+Qed.
+
 Theorem raw_sim i sizes : forall wf w0 n, sim i wf w0 ->
   let '(nf, ef, wf') := raw_copies sizes wf n in
   nf = done_raw i sizes w0 n /\
@@ -405,9 +412,9 @@ Proof.
       { clear -Hi01. revert w01 n Hi01. induction r as [|k r IH]; intros w n Hi; cbn [raw_copies length].
         - cbn. split; [lia|reflexivity].
         - pose proof (copy_bytes_intact (repeat 0 (N.to_nat k)) w Hi) as H1.
-          pose proof (copy_bytes_cases (repeat 0 (N.to_nat k)) w (proj2 Hi)) as C.
-          destruct (copy_bytes (repeat 0 (N.to_nat k)) w) as [[e|] w1]; cbn [snd] in H1.
-          + destruct C as (_ & _ & Hf & _). destruct H1. congruence.
+          pose proof (copy_bytes_intact_none (repeat 0 (N.to_nat k)) w Hi) as C.
+          destruct (copy_bytes (repeat 0 (N.to_nat k)) w) as [[e|] w1]; cbn [snd fst] in H1, C.
+          + discriminate.
           + destruct (IH w1 (N.succ n) H1) as [A B]. split; [rewrite A; lia|exact B]. }
       destruct Hfree as [A B]. split; [rewrite A; lia|]. split; [exact B|].
       apply (broken_step i _ _ _ Hbr Hfw).
@@ -429,7 +436,7 @@ Definition free_calls (hs : bool) (ms : list rmsg) (m : N) (term : option N) : N
   wt_calls (snd (rtmp_write_session hs ms (wtr_new None m term))).
 
 Lemma sim_new i m term : sim i (wtr_new (Some i) m term) (wtr_new None m term).
-Proof. unfold sim, intact, wtr_new. cbn. repeat split; lia. Qed.
+Proof. unfold sim, intact, wtr_new, wtr_new_s. cbn. repeat split; try reflexivity; lia. Qed.
 
 Lemma hit_peer_received i wf w0 : hit_peer i wf w0 ->
   wt_received wf = received_at (wt_m wf) (wt_term wf) (rev (wt_peer w0)) i.
@@ -460,7 +467,7 @@ Proof.
      (e2 <> None -> broken i (bw_under b) wz)).
   { intros wf1 w01 n1 Hs.
     assert (Hsb : simb i (bufw_new wf1) (bufw_new w01)) by (split; [reflexivity|split; [reflexivity|split; [reflexivity|exact Hs]]]).
-    assert (Hc : clean (bufw_new wf1)) by (split; [reflexivity|split; [reflexivity|apply Hs]]).
+    assert (Hc : clean (bufw_new wf1)) by (split; [reflexivity|split; [reflexivity|split; apply Hs]]).
     pose proof (ops_sim i (msgs_write_ops DEFCHUNK ms) _ _ n1 Hsb Hc eq_refl) as O.
     destruct (rtmp_write_ops (msgs_write_ops DEFCHUNK ms) (bufw_new wf1) n1) as [[n2 e2] b]. destruct O as (On & Oe).
     cbn zeta. split; [exact On|]. destruct e2 as [e|].
